@@ -15,7 +15,7 @@ class Node:
         self.assign = []        # (decl, rendered item text) leaf assignments placed in this instance
 
 
-def gen_decls(rng, depth=0, counter=None, maxdepth=3, types=('int', 'float', 'bool', 'str'), nodefault=True, lists=True):
+def gen_decls(rng, depth=0, counter=None, maxdepth=3, types=('int', 'float', 'bool', 'str'), nodefault=True, lists=True, funcs=False):
     counter = counter if counter is not None else [0]
     decls = []
     for _ in range(rng.randint(1, 4)):
@@ -35,11 +35,15 @@ def gen_decls(rng, depth=0, counter=None, maxdepth=3, types=('int', 'float', 'bo
             if t == 'str' and rng.random() < 0.15:
                 dv = None
         decls.append(D('%s%d' % (t[0], counter[0]), t, fl, dv))
+    if funcs:
+        for _ in range(rng.choice([0, 0, 1, 2])):
+            counter[0] += 1
+            decls.append(D('fn%d' % counter[0], 'func'))
     if depth < maxdepth:
         for _ in range(rng.randint(0 if depth else 1, 2)):
             counter[0] += 1
             fl = rng.choice([0, F_MULTI, F_MULTI | F_TITLE])
-            decls.append(D('s%d' % counter[0], 'sec', fl, sub=gen_decls(rng, depth + 1, counter, maxdepth, types, nodefault, lists)))
+            decls.append(D('s%d' % counter[0], 'sec', fl, sub=gen_decls(rng, depth + 1, counter, maxdepth, types, nodefault, lists, funcs)))
     rng.shuffle(decls)
     return decls
 
